@@ -29,6 +29,7 @@ type WorkPlan struct {
 	Limit    int     `json:"limit"`               // microtask concurrency limit
 	Requeue  bool    `json:"requeue,omitempty"`   // C06: re-queue a task after its execution panicked
 	RequeueFast bool `json:"requeue_fast,omitempty"` // ... as soon as every task has run once, and expect the re-run promptly
+	NoChan   bool    `json:"no_chan,omitempty"`   // C06: no error reporting channel is set (and stderr reporting is off): only the returned errors are checked
 	Warm     bool    `json:"warm,omitempty"`      // C05 with management: all modules are stopped and started once before the workload, with a worker started on each stopped module that outlives the restart
 }
 
@@ -46,6 +47,7 @@ type WItem struct {
 	Mod    int    `json:"mod"`
 	Kind   string `json:"kind"` // worker runworker svc task tasksched mthigh mtmed mtlow mtrunhigh mtrunmed mtrunlow sighigh sigmed siglow hook
 	AtStart bool  `json:"at_start,omitempty"` // launched from the module's start routine
+	PanicTwice bool `json:"panic_twice,omitempty"` // the second invocation (restart of a service worker, re-run of a task) panics again, with the same value
 	Dur    int    `json:"dur"`   // durLadder index; -1 = runs until cancelled
 	Drain  int    `json:"drain"` // drainLadder index: keeps running that long after seeing the cancellation
 	Ret    int    `json:"ret,omitempty"` // 0 nil, 1 ctx error, 2 other error, 3 restart-now (svc)
@@ -141,6 +143,7 @@ func genWork(rng *rand.Rand, tier, prop string) *WorkPlan {
 	p.Limit = 2 + rng.IntN(5)
 	p.Settle = rng.IntN(len(durLadder))
 	p.Requeue = prop == "C06"
+	p.NoChan = prop == "C06" && rng.IntN(6) == 0
 	p.RequeueFast = prop == "C06" && rng.IntN(2) == 0
 	ni := rng.IntN(7)
 	if tier == "thorough" {
@@ -177,6 +180,7 @@ func genWork(rng *rand.Rand, tier, prop string) *WorkPlan {
 		}
 		if prop == "C06" && rng.IntN(3) == 0 {
 			it.Panic = 1 + rng.IntN(nPanicKinds)
+			it.PanicTwice = (it.Kind == "svc" || it.Kind == "task" || it.Kind == "tasksched") && rng.IntN(3) == 0
 		}
 		it.EvMod = rng.IntN(n)
 		it.Done = 1 + rng.IntN(3)
@@ -365,7 +369,7 @@ func (s *workState) body(k int) func(ctx context.Context) error {
 		r.EndSeq = simrt.Seq()
 		r.EndT = simrt.Now()
 		r.Ended = true
-		if it.Panic != 0 && r.Inv == 0 && !isSig(it.Kind) {
+		if it.Panic != 0 && (r.Inv == 0 || (it.PanicTwice && r.Inv == 1)) && !isSig(it.Kind) {
 			r.Panicked = true
 			s.rc.Fault("panic-" + it.Kind)
 			s.notePanic(it.Panic, fmt.Sprint(k))
@@ -455,7 +459,11 @@ func execWork(prop string, p *WorkPlan, rc *simkit.RunCtx) {
 	s.startT, s.stopT = modules.VerifSimTimeouts()
 	modules.SetMaxConcurrentMicroTasks(p.Limit)
 	s.errCh = make(chan *modules.ModuleError, 4096)
-	modules.SetErrorReportingChannel(s.errCh)
+	if !p.NoChan {
+		modules.SetErrorReportingChannel(s.errCh)
+	} else {
+		rc.Probe("no-error-channel")
+	}
 	for i, m := range p.Mods {
 		var deps []string
 		for _, d := range m.Deps {
@@ -875,6 +883,25 @@ func checkWork(prop string, p *WorkPlan, rc *simkit.RunCtx) {
 func checkC06(s *workState, p *WorkPlan, rc *simkit.RunCtx) {
 	// clause 2: reported errors
 	reported := s.reported
+	if p.NoChan {
+		// nothing listens: only what the blocking variants return can be looked at
+		for _, rr := range s.rets {
+			if p.Items[rr.Item].Panic == 0 {
+				continue
+			}
+			ok, me := modules.IsPanic(rr.Err)
+			if !ok {
+				rc.Fail("C06.blocking-return", "blocking run variant did not return a panic error for a panicking function", fmt.Sprintf("item %d: %v", rr.Item, rr.Err))
+				return
+			}
+			if me.StackTrace == "" {
+				rc.Fail("C06.no-stack", "panic error without stack trace (returned by a blocking variant, no error channel set)", me.Message)
+				return
+			}
+		}
+		checkC06State(s, p, rc)
+		return
+	}
 	if len(reported) != s.panicsFired {
 		rc.Fail("C06.report-count", "number of panic reports on the error channel differs from the number of panics raised",
 			fmt.Sprintf("raised %d, reported %d", s.panicsFired, len(reported)))
@@ -974,6 +1001,11 @@ func checkC06(s *workState, p *WorkPlan, rc *simkit.RunCtx) {
 			return
 		}
 	}
+	checkC06State(s, p, rc)
+}
+
+// checkC06State: counters, restarts and re-runs (what does not depend on the error channel).
+func checkC06State(s *workState, p *WorkPlan, rc *simkit.RunCtx) {
 	// clause 4: counters back to zero at quiescence
 	if st := s.finalStatus; st != nil {
 		if st.Total.Workers != 0 || st.Total.Tasks != 0 || st.Total.MicroTasks != 0 || st.Total.CtrlFuncRunning != 0 {
